@@ -83,7 +83,7 @@ def _gen_history(rng, nops, uid0=0, write_only=False):
             ops.append(dict(op="delete", b="b0", pick=rng.randrange(1000)))
             continue
         if phase == "singles" and r < 0.8:
-            ops.append(dict(op=rng.choice(["insert", "insert", "replace_last", "replace", "delete"]), b=b, ev=ev(),
+            ops.append(dict(op=rng.choice(["insert", "insert", "replace_last", "replace", "delete", "insert_with_id"]), b=b, ev=ev(),
                             pick=rng.randrange(1000)))
             continue
         if phase == "bulk" and r < 0.5:
@@ -381,7 +381,7 @@ def may_remove(op, desc, row):
         return row[0] == "B" and row[1] == b
     if kind == "delete_bucket":
         return row[1] == b
-    if kind in ("replace", "delete"):
+    if kind in ("replace", "delete", "insert_with_id"):
         return row[0] == "E" and row[1] == b and row[2] in desc.get("targets", [])
     if kind == "upsert":
         return row[0] == "E" and row[1] == b and row[2] in [s[1] for s in desc.get("steps", []) if s[0] == "rewrite"]
